@@ -125,6 +125,13 @@ theorem mat4_charpoly_coeffs (m : M4 K) (x : K) :
   push_cast
   ring
 
+/-- `Matrix4.Det` (the 24-term expansion in the source) is multiplicative over `Matrix4.Mul`. -/
+theorem mat4_det_mul (x y : M4 K) : (x.mul y).det = x.det * y.det := by
+  obtain ⟨a, b, c, d, e, f, g, h, i, j, k, l, m1, n, o, p⟩ := x
+  obtain ⟨a', b', c', d', e', f', g', h', i', j', k', l', m1', n', o', p'⟩ := y
+  simp only [M4.mul, M4.det]
+  ring
+
 /-- `Matrix4.Transpose` is an involution and preserves `Det`. -/
 theorem mat4_transpose_involutive (m : M4 K) :
     m.transpose.transpose = m ∧ m.transpose.det = m.det := by
@@ -331,11 +338,34 @@ theorem angle_dist_circular (trunc : K → Int) (ht : IsTrunc trunc) (τ θ1 θ2
     rw [e] at this
     exact this
 
+/-- The truncation the exact-mode driver actually runs (`ratTrunc`, on ℚ) is a truncation toward
+zero — so the two theorems above apply to the very function the correspondence executes. -/
+theorem rat_trunc_is_trunc : IsTrunc ratTrunc := by
+  intro q
+  constructor
+  · intro h
+    have hn : 0 ≤ q.num := Rat.num_nonneg.mpr h
+    have e : ratTrunc q = ⌊q⌋ := by
+      rw [ratTrunc, Rat.floor_def', Int.tdiv_eq_ediv_of_nonneg hn]
+    rw [e]
+    exact ⟨Int.floor_le q, Int.lt_floor_add_one q⟩
+  · intro h
+    have hn : q.num ≤ 0 := Rat.num_nonpos.mpr h
+    have e : ratTrunc q = ⌈q⌉ := by
+      have h1 : (-q).num.tdiv (-q).den = ⌊-q⌋ := by
+        rw [Rat.floor_def', Int.tdiv_eq_ediv_of_nonneg (by simp [hn])]
+      rw [Int.floor_neg] at h1
+      simp only [Rat.num_neg_eq_neg_num, Rat.neg_den, Int.neg_tdiv] at h1
+      rw [ratTrunc]
+      omega
+    rw [e]
+    exact ⟨Int.le_ceil q, by have := Int.ceil_lt_add_one q; linarith⟩
+
 /-- Non-vacuity of `IsTrunc`, and the replay of F14: with period 7, the repaired code maps `−1/2`
 to `13/2`, whereas the code as found returned `1/2`. -/
 example :
-    let tr : ℚ → Int := fun q => q.num.tdiv q.den
-    Angle.canonicalAngle tr 7 (-1/2) = 13/2 ∧ Angle.canonicalAngleOld tr 7 (-1/2) = 1/2 := by
+    Angle.canonicalAngle ratTrunc (7 : ℚ) (-1/2) = 13/2 ∧
+      Angle.canonicalAngleOld ratTrunc (7 : ℚ) (-1/2) = 1/2 := by
   decide +kernel
 
 end Ordered
@@ -395,6 +425,17 @@ theorem grid3_best_of_samples (xs ys zs recs : Nat) (f : P3 K → K) (mn mx p : 
   · simp only [grid3Max] at h; rw [h0] at h; cases h
   · simp only [grid3Max] at h; rw [e] at h; cases h
     exact ⟨rfl, hs, hm⟩
+
+/-- **`RecursiveLineSearch.Maximize`** (`k` dimensions still to search, `Stops ≥ 1`): the returned
+value is the objective's value at the returned point, that point was evaluated, and no point of
+the N-dimensional objective evaluated at any depth has a larger value. -/
+theorem rls_best_of_samples (stops recs : Nat) (hs : 0 < stops) (f : List K → K) (mn mx : List K)
+    (k : Nat) (pre : List K) (d : Nat) :
+    ∃ y, (rlsMax stops recs f mn mx k pre d).2 = some y ∧
+      y = f (rlsMax stops recs f mn mx k pre d).1 ∧
+      (rlsMax stops recs f mn mx k pre d).1 ∈ rlsLeaves stops recs f mn mx k pre d ∧
+      ∀ p ∈ rlsLeaves stops recs f mn mx k pre d, f p ≤ y :=
+  rls_spec stops recs hs f mn mx k pre d
 
 /-- `GSS` (a minimiser): the returned point was evaluated and no evaluated point has a smaller
 value — for every objective (unimodal or not), every `phi`, every iteration count. -/
@@ -620,6 +661,39 @@ theorem joined_curve_eval (trunc : K → Int) (ht : IsTrunc trunc) (n : Nat) (hn
         have : ((i0.toNat : Nat) : Int) = i0 := Int.toNat_of_nonneg hi0nn
         exact_mod_cast congrArg (fun z : Int => (z : K)) this
       rw [this]
+
+/-- **`bisectionSearch(x, f)`** (behind `CurveInverseX/CurveEvalX`), when neither end hits `x`
+exactly: it answers NaN iff both ends are on the same side of `x`; otherwise it returns the midpoint
+of a bracket `f lo ≤ x < f hi` of width exactly `2⁻⁶³` inside `[0,1]` (so for a curve monotone in
+`x` the returned parameter is within `2⁻⁶⁴` of the solution). -/
+theorem bisection_search_bracket (f : K → K) (x : K) (h0 : f 0 ≠ x) (h1 : f 1 ≠ x) :
+    ((f 0 ≤ x ↔ f 1 ≤ x) → bisectionSearch f x = none) ∧
+    (f 0 ≤ x → ¬ f 1 ≤ x → ∃ lo hi, bisectionSearch f x = some ((lo + hi) / 2) ∧
+        f lo ≤ x ∧ ¬ f hi ≤ x ∧ hi - lo = 1 / 2 ^ 63 ∧ 0 ≤ lo ∧ hi ≤ 1) ∧
+    (¬ f 0 ≤ x → f 1 ≤ x → ∃ lo hi, bisectionSearch f x = some ((lo + hi) / 2) ∧
+        f lo ≤ x ∧ ¬ f hi ≤ x ∧ lo - hi = 1 / 2 ^ 63 ∧ 0 ≤ hi ∧ lo ≤ 1) := by
+  refine ⟨?_, ?_, ?_⟩
+  · intro hiff
+    simp only [bisectionSearch]
+    push_cast
+    simp only [beq_iff_eq, h0, h1, if_false]
+    by_cases a : f 0 ≤ x
+    · have b := hiff.mp a
+      simp [a, b]
+    · have b : ¬ f 1 ≤ x := fun b => a (hiff.mpr b)
+      simp [a, b]
+  · intro a b
+    obtain ⟨i1, i2, i3, i4, _⟩ := bisectLoop_inv f x 63 0 1 a b
+    refine ⟨_, _, ?_, i1, i2, by rw [i3]; ring, (i4 zero_le_one).1, (i4 zero_le_one).2⟩
+    simp only [bisectionSearch]
+    push_cast
+    simp [h0, h1, a, b]
+  · intro a b
+    obtain ⟨i1, i2, i3, _, i5⟩ := bisectLoop_inv f x 63 1 0 b a
+    refine ⟨_, _, ?_, i1, i2, by linarith [i3], (i5 zero_le_one).1, (i5 zero_le_one).2⟩
+    simp only [bisectionSearch]
+    push_cast
+    simp [h0, h1, a, b]
 
 end CurvesOrdered
 
